@@ -139,6 +139,8 @@ def decOutcome (s : String) : Option Outcome :=
   | "c" => if rest == "" then some .cancelled else none
   | "z" => if rest == "" then some .nilResp else none
   | "e" => if rest == "" then some .beforeErr else none
+  | "D" => if rest == "" then some .deadlineCtx else none
+  | "L" => rest.toNat?.map .lateCancel
   | _ => none
 
 def decScript (s : String) : Option (List Outcome) := (splitList "," s).mapM decOutcome
@@ -152,6 +154,7 @@ def decFile (s : String) : Option FileUp :=
       | "p" => some (FileSrc.path content)
       | "s" => some (FileSrc.seeker content false)
       | "r" => some (FileSrc.stream content false)
+      | "o" => some (FileSrc.closer content false)
       | _ => none
     pure ⟨← decodeHex p, ← decodeHex n, ← decodeHex ct, src⟩
   | _ => none
@@ -213,7 +216,7 @@ def encWire (w : Wire) : String :=
 
 def encErrKind : ErrKind → String
   | .transport => "t" | .deadline => "d" | .cancel => "c" | .body => "b" | .wrapper => "w"
-  | .before => "e" | .after i => "a" ++ toString i
+  | .before => "e" | .after i => "a" ++ toString i | .waitCtx => "x"
 
 def encView : RespView → String
   | .absent => "nil" | .noHttp => "nohttp" | .status c => toString c
